@@ -1,6 +1,7 @@
 package vc
 
 import (
+	"govc/internal/spec"
 	"fmt"
 	"os"
 	"sort"
@@ -62,6 +63,17 @@ func VerifyFunction(p *Program, name string, opt Options) FnReport {
 	if fn == nil {
 		rep.Err = "bind: contract does not bind to any function in the current tree"
 		return rep
+	}
+	if cs.Trusted {
+		// checksafety: the ensures clauses stay trusted (they state something the code cannot
+		// show, e.g. a property of net/http), but the body must not panic
+		c2 := *cs
+		c2.Trusted = false
+		c2.Ensures = nil
+		c2.Defines = nil
+		c2.HasAssigns = true
+		c2.Assigns = []spec.Expr{&spec.Ident{Name: "everything"}}
+		cs = &c2
 	}
 	start := time.Now()
 	fc := NewFnCtx(p, name, fn, cs)
